@@ -148,8 +148,9 @@ PROPS["C13"] = dict(
 
 PROPS["C10"] = dict(
     level="proof",
-    verus=["c10_header", "c10_engine"],
-    labels=["C10."],
+    verus=["c10_header", "c10_engine", "c04_partition"],
+    labels=["C10.", "C07.tags_with_set.tag_test"],
+    witness=["c10_flips.rs"],
     kani=[KaniSet("src/data_format/mod.rs", "c10_header.rs", [
         Harness("c10_header_twin", "C10.hdr.twin", "B", "twin of C10.hdr.*: every byte string of length <= 12 that does not reach the msgpack decoder (decoder stubbed; unwind 14, unwinding assertions on)"),
     ]),
@@ -160,6 +161,8 @@ PROPS["C10"] = dict(
             Harness("c10_wf_no_hostname", "C10.wf.no_hostname", "C", "all 2^32 masks x {empty, one-literal} pattern, hostname absent, one fixed request: the four non-regex hostname matchers answer without panicking (string loops bounded by the fixed literals, unwind 10)"),
         ])],
     trusted=["rmp-serde msgpack decoding (v0::DeserializeFormat::deserialize body)",
+             "witness C10.witness.single_byte_corruptions is a BOUNDED stand-in (concrete inputs, not a proof): all single-bit flips and nil replacements of one ~1 kB buffer holding every rule kind; load, queries, tag switches and re-serialization must not panic",
+             "the tag test of Blocker::tags_with_set (run by every load) is under contract for rules decoded without a tag (R7 lift of the closure body, unit c04_partition)",
              "shape invariants of decoded rules beyond the ones listed: a hostname-anchored rule without hostname (Kani C harness), a procedural filter with any operator list incl. an empty one (Kani B harness, lists <= 2); fusion of decoded rules with empty any-of lists is covered by C05.fusion.safety (unit c05_optimizer, claimed under C05)"],
     assumptions=[],
     level_text="Verus proves, for byte slices of any length, that the header/version dispatch never indexes out of bounds and maps each header class to the documented error, and that a failed load leaves the engine unchanged; Kani proves that hostname-less anchored rules do not panic the matchers (all masks) and, bounded, that the CSS view of a decoded procedural filter never panics",
